@@ -1,12 +1,12 @@
 #!/bin/bash
-# usage: sweep.sh <tier> <seed>...   runs every registered check with the given seeds from this /verif tree
+# usage: [ONLY="C01 C07"] sweep.sh <tier> <seed>...   runs every registered check (or those named in ONLY) with the given seeds from this /verif tree
 # (under `vp run` this is a snapshot: evidence and replays land in the snapshot, never in the real /verif)
 export GOFLAGS=-mod=mod GOPROXY=off GOSUMDB=off GOTOOLCHAIN=local
 export VERIF_ROOT=$PWD
 tier=$1; shift
 (cd harness && go build -o ../bin/vcheck ./cmd/vcheck) || exit 2
 for s in "$@"; do
-  for p in $(bin/vcheck list | cut -d' ' -f1); do
+  for p in ${ONLY:-$(bin/vcheck list | cut -d' ' -f1)}; do
     start=$(date +%s)
     VERIF_SEED=$s bin/vcheck run $p --tier $tier > out.$p.$s.log 2>&1; rc=$?
     echo "seed=$s $p exit=$rc $(( $(date +%s) - start ))s $(grep -E 'SUMMARY' out.$p.$s.log | sed 's/.*evaluations=/evals=/' | cut -c1-120)"
